@@ -471,7 +471,7 @@ class C18:
             case["target_exists"] = rng.random() < 0.4
             case["target_kind"] = rng.choice(["file", "file", "dir", "dir-populated", "alias-symlink", "alias-hardlink",
                                               "target-symlink-to-source"])
-            case["metaname"] = rng.choice(["old.torrent", "x.torrent", "weird name.torrent"])
+            case["metaname"] = rng.choice(["old.torrent", "x.torrent", "weird name.torrent", "<case-variant>"])
         return case
 
     @staticmethod
@@ -497,6 +497,11 @@ class C18:
         cmd = case["cmd"]
         # only the metafile matters for rename: optionally give the torrent a name close to the file-name limit
         tname = "L" * case["long_name"] if cmd == "rename" and case.get("long_name") else tree["name"]
+        if case.get("metaname") == "<case-variant>":
+            # the metafile is called like its target except for letter case (another file on a case-sensitive system)
+            cv = tname.swapcase()
+            ok = cv != tname and len(os.fsencode(cv)) <= 240          # (long-name cases keep their ordinary metafile name)
+            case = dict(case, metaname=(cv + ".torrent") if ok else "old.torrent")
         mpath = os.path.join(sb, "meta", case.get("metaname", "m.torrent"))
         if cmd not in ("create", "new", "implicit"):
             # the metafile under inspection is written by the reference encoder (independent of create)
